@@ -53,6 +53,8 @@ DoLevi(i, idxs) == /\ Room /\ reg[i].k >= DD - 1 /\ \A a \in 1..Len(idxs) : idxs
                    /\ Push(LeviCivita(reg[i], idxs), LeviCivita(twin[i], idxs), [op |-> "LeviCivita", i |-> i, idxs |-> idxs])
 DoNormSq(i) == /\ Room
                /\ Push(NormSq(reg[i]), NormSq(twin[i]), [op |-> "NormSq", i |-> i])
+DoSpatialSum(i) == /\ Room
+                   /\ Push(SpatialSum(reg[i]), SpatialSum(twin[i]), [op |-> "SpatialSum", i |-> i])
 ConvImg(c, A, F) == ConvOne(c, <<A>>, <<F>>)
 DoConv(i) == /\ Room /\ reg[i].k + Filter.k <= KCap /\ reg[i].dims = CCfg.N
              /\ Push(ConvImg(CCfg, reg[i], Filter), ConvImg(CfgG(g, CCfg), twin[i], Act(g, Filter)), [op |-> "Convolve", i |-> i])
@@ -68,7 +70,7 @@ Next ==
   \/ \E i \in 1..Len(reg), a \in 1..KCap, b \in 1..KCap : DoContract(i, a, b)
   \/ \E i \in 1..Len(reg), prs \in PairSets : DoMulti(i, prs)
   \/ \E i \in 1..Len(reg), idxs \in (IF DD = 2 THEN Idxs1 ELSE Idxs2) : DoLevi(i, idxs)
-  \/ \E i \in 1..Len(reg) : DoNormSq(i) \/ DoConv(i)
+  \/ \E i \in 1..Len(reg) : DoNormSq(i) \/ DoConv(i) \/ DoSpatialSum(i)
 
 (* ---------------- C05 ---------------- *)
 TypeSound == \A i \in 1..Len(reg) : twin[i] = Act(g, reg[i])
